@@ -1,34 +1,56 @@
 ------------------------------ MODULE CircuitSys ------------------------------
-(* The top-level state machine whose behaviours are replayed into cirkit:      *)
-(*   AddInput / AddInner   build a symbolic circuit layer by layer             *)
-(*   Finish                declare its outputs (Circuit(...) is constructed)   *)
-(*   ApplyOp               apply a symbolic operator to pool entries           *)
-(* Every reachable state with phase # "build" describes a pipeline (a pool of  *)
-(* circuits); Expect gives, from Tier R only, what every circuit of the pool   *)
-(* must evaluate to once compiled (any flags, any semiring).                   *)
-EXTENDS Sem, TLC, Json
+(* The top-level state machine whose behaviours are replayed into cirkit.      *)
+(*                                                                            *)
+(*  phase "build":  AddInput / AddInner   build a pool of symbolic layers     *)
+(*                  Finish                declare one or two base circuits    *)
+(*                                        (Circuit(...) is constructed)       *)
+(*  phase "ops":    ApplyOp               apply a symbolic operator to pool   *)
+(*                                        entries (valid or, if Invalid,      *)
+(*                                        invalid arguments)                  *)
+(*                  StartRun              compile everything in one context   *)
+(*  phase "run":    Update / Reset / Save / Load / Reload / Eval              *)
+(*                                        a history of in-place parameter     *)
+(*                                        changes interleaved with evaluations*)
+(*                                                                            *)
+(* Every reachable state describes a pipeline (a pool of circuits) and a       *)
+(* parameter store; the Expect* operators give, from Tier R only (Sem.tla,     *)
+(* Structure.tla), what every circuit of the pool must evaluate to once        *)
+(* compiled -- for any flags, any semiring -- and how every operator call must *)
+(* end.                                                                       *)
+EXTENDS Structure, TLC, Json
 
 CONSTANTS
   Dom,        \* sequence of domain sizes, one per model variable
-  KSet,       \* admissible unit counts
+  KSet,       \* admissible unit counts (Kronecker layers have kin^arity units, bounded by MaxK)
+  MaxK,
   MaxL,       \* max number of layers
   MaxIn,      \* max number of input layers
   InKindSeq,  \* sequence of admissible input kinds (order = canonical order)
   InnerKinds, \* subset of {"sum","mix","had","kron"}
   MaxAr,      \* max arity
-  MaxOuts,    \* max number of outputs
+  FreeOrder,  \* TRUE: sum / Hadamard layers list their inputs in any order (Kronecker layers always do)
+  MaxOuts,    \* max number of outputs per base circuit
+  MaxBases,   \* 1 or 2 base circuits (disjoint layer sets)
   MaxOps,     \* max number of operator applications
   OpSet,      \* admissible operators
   Scheme,     \* valuation scheme id
   OnlySD,     \* TRUE: only smooth and decomposable base circuits are finished
   PolyDeg,    \* degree of polynomial inputs
   DiffK,      \* set of differentiation orders
+  MaxDeg,     \* max number of base-circuit factors in a product (bounds magnitudes: 32-bit integers)
+  Invalid,    \* TRUE: ApplyOp also generates calls that must be refused
+  MaxHist,    \* length of run-phase histories (0 = no run phase)
+  RunActs,    \* subset of {"update","reset","save","load","reload","eval"}
+  NVer,       \* number of store versions an Update cycles through
+  GradMod,    \* 0 = no gradient tables; n>0: emit d/dtheta for parameter entries with hash % n = 0
+  QueryOn,    \* TRUE: emit the marginal tables of base circuit 1 for every variable subset
   EmitOps,    \* emit a behaviour only at states whose number of applied operators is in this set
   EmitMod,    \* ... and whose structural hash is EmitRes modulo EmitMod (1 = emit all)
-  EmitRes
+  EmitRes,
+  EmitSmall   \* ... or whose number of layers is at most EmitSmall (small circuits are all emitted)
 
-VARIABLES layers, outs, ops, phase
-vars == <<layers, outs, ops, phase>>
+VARIABLES layers, bases, ops, phase, ver, saved, hist
+vars == <<layers, bases, ops, phase, ver, saved, hist>>
 
 V == Len(Dom)
 NL == Len(layers)
@@ -41,27 +63,22 @@ KindHash(k) == CASE k = "emb" -> 1 [] k = "catp" -> 2 [] k = "catl" -> 3 [] k = 
                  [] k = "mix" -> 9 [] k = "had" -> 10 [] k = "kron" -> 11 [] OTHER -> 12
 Layer(kind, var, K, ins) == [kind |-> kind, var |-> var, K |-> K, ins |-> ins]
 
-(* ---------- structure ---------- *)
-Sc(i) == LScope(layers, i)
-IsSmoothL(ls) == \A i \in 1..Len(ls) : ls[i].kind \in SumKinds =>
-                   \A h \in 1..Len(ls[i].ins) : LScope(ls, ls[i].ins[h]) = LScope(ls, i)
-IsDecompL(ls) == \A i \in 1..Len(ls) : ls[i].kind \in ProdKinds =>
-                   \A h1, h2 \in 1..Len(ls[i].ins) :
-                      h1 < h2 => LScope(ls, ls[i].ins[h1]) \cap LScope(ls, ls[i].ins[h2]) = {}
-
-Used(ls, os) == \* every layer is an output or feeds another layer
-  \A i \in 1..Len(ls) : (\E o \in 1..Len(os) : os[o] = i)
-                        \/ (\E j \in 1..Len(ls) : \E h \in 1..Len(ls[j].ins) : ls[j].ins[h] = i)
-
-(* strictly increasing index sequences of length n over 1..m *)
-RECURSIVE IncSeqs(_, _)
-IncSeqs(n, m) == IF n = 0 THEN {<<>>}
-                 ELSE {Append(s, j) : s \in IncSeqs(n - 1, m), j \in 1..m} 
+(* ---------- sequences ---------- *)
+RECURSIVE AllSeqs(_, _)          \* all sequences of length n over 1..m
+AllSeqs(n, m) == IF n = 0 THEN {<<>>}
+                 ELSE {Append(s, j) : s \in AllSeqs(n - 1, m), j \in 1..m}
 IsInc(s) == \A a, b \in 1..Len(s) : a < b => s[a] < s[b]
 IsInj(s) == \A a, b \in 1..Len(s) : a < b => s[a] # s[b]
+Last(s) == s[Len(s)]
+SetToSeqAny(S) == LET RECURSIVE F(_)
+                      F(T) == IF T = {} THEN <<>>
+                              ELSE LET m == CHOOSE y \in T : TRUE IN <<m>> \o F(T \ {m})
+                  IN F(S)
+SetMax(S) == CHOOSE m \in S : \A y \in S : y <= m
 
-(* ---------- actions ---------- *)
-Init == layers = <<>> /\ outs = <<>> /\ ops = <<>> /\ phase = "build"
+(* ---------- build ---------- *)
+Init == /\ layers = <<>> /\ bases = <<>> /\ ops = <<>> /\ phase = "build"
+        /\ ver = <<>> /\ saved = <<>> /\ hist = <<>>
 
 AddInput ==
   /\ phase = "build"
@@ -72,69 +89,99 @@ AddInput ==
        /\ (kind \in {"const", "clog"} => v = 1)
        /\ (NL > 0 => InKey(layers[NL]) <= InKey(l))
        /\ layers' = Append(layers, l)
-  /\ UNCHANGED <<outs, ops, phase>>
+  /\ UNCHANGED <<bases, ops, phase, ver, saved, hist>>
 
 AddInner ==
   /\ phase = "build"
   /\ NL >= 1 /\ NL < MaxL
   /\ \E kind \in InnerKinds, n \in 1..MaxAr :
-     \E ins \in IncSeqs(n, NL) :
+     \E ins \in AllSeqs(n, NL) :
        LET kin == layers[ins[1]].K IN
        /\ \A h \in 1..n : layers[ins[h]].K = kin
-       /\ (kind \in {"sum", "had", "mix"} => IsInc(ins))
+       /\ (kind \in {"sum", "mix", "had"} => IF FreeOrder THEN IsInj(ins) ELSE IsInc(ins))
        /\ (kind = "kron" => IsInj(ins))
        /\ (kind \in ProdKinds => n >= 2)
        /\ (kind = "mix" => n >= 2)
-       /\ \E K \in KSet :
+       /\ \E K \in (IF kind = "kron" THEN {IPow(kin, n)} ELSE KSet) :
+            /\ K <= MaxK
             /\ (kind \in {"had", "mix"} => K = kin)
-            /\ (kind = "kron" => K = IPow(kin, n))
             /\ layers' = Append(layers, Layer(kind, 0, K, ins))
-  /\ UNCHANGED <<outs, ops, phase>>
+  /\ UNCHANGED <<bases, ops, phase, ver, saved, hist>>
+
+OutChoices ==
+  UNION {{os \in AllSeqs(n, NL) :
+            /\ IsInj(os)
+            /\ \A o \in 1..n : layers[os[o]].K = layers[os[1]].K}   \* outputs are stacked: equal units
+         : n \in 1..MaxOuts}
 
 Finish ==
   /\ phase = "build"
   /\ NL >= 1
-  /\ \E n \in 1..MaxOuts : \E os \in IncSeqs(n, NL) :
-       /\ IsInj(os)
-       /\ \A o \in 1..n : layers[os[o]].K = layers[os[1]].K   \* outputs are stacked: equal units
-       /\ Used(layers, os)
-       /\ (OnlySD => IsSmoothL(layers) /\ IsDecompL(layers))
-       /\ outs' = os
+  /\ (OnlySD => SmoothOn(layers, 1..NL) /\ DecompOn(layers, 1..NL))
+  /\ \/ \E os \in OutChoices :
+          /\ Reach(layers, os) = 1..NL                              \* every layer is used
+          /\ bases' = <<os>>
+     \/ /\ MaxBases >= 2
+        /\ \E os1, os2 \in OutChoices :
+             LET r1 == Reach(layers, os1)
+                 r2 == Reach(layers, os2) IN
+             /\ r1 \cap r2 = {}
+             /\ r1 \cup r2 = 1..NL
+             /\ NL \in r1                                           \* canonical order of the pair
+             /\ bases' = <<os1, os2>>
   /\ phase' = "ops"
-  /\ UNCHANGED <<layers, ops>>
+  /\ ver' = [i \in 1..NL |-> 1]
+  /\ UNCHANGED <<layers, ops, saved, hist>>
 
-(* ---------- the pool ---------- *)
-RECURSIVE RowDy(_, _, _)
+(* ---------- the store ---------- *)
 GenVal(l, u, j) ==
   CASE Scheme = 1 -> <<DInt(1 + ((2 * l + 3 * u + 5 * j) % 4)), DZero>>
     [] Scheme = 2 -> <<DNorm(<<((l + 2 * u + 3 * j) % 7) - 3, (l + u + j) % 2>>), DZero>>
     [] Scheme = 3 -> <<DInt(((l + 2 * u + 3 * j) % 5) - 2), DInt(((2 * l + u + j) % 3) - 1)>>
+    [] Scheme \in {4, 5} -> <<DInt(1 + ((2 * l + 3 * u + 5 * j) % 4)), DZero>>
+    [] Scheme = 6 -> <<DInt(1 + ((l + 2 * u + 3 * j) % 3)), DZero>>     \* small positive (deep products)
 PosVal(l, u, j) == <<DInt(1 + ((2 * l + 3 * u + 5 * j) % 4)), DZero>>
-ProbRow(l, u, n) == \* a normalised dyadic row of length n
-  LET r == (l + u) % 3 IN
-  CASE n = 2 -> (CASE r = 0 -> <<<<1, 2>>, <<3, 2>>>> [] r = 1 -> <<<<3, 2>>, <<1, 2>>>> [] r = 2 -> <<<<1, 1>>, <<1, 1>>>>)
-    [] n = 3 -> [j \in 1..3 |-> IF ((j + r) % 3) = 0 THEN <<1, 1>> ELSE <<1, 2>>]
-    [] n = 4 -> [j \in 1..4 |-> IF ((j + r) % 4) = 0 THEN <<5, 3>> ELSE <<1, 3>>]
-RowDy(l, u, n) == [j \in 1..n |-> <<ProbRow(l, u, n)[j], DZero>>]
+(* a normalised dyadic row of length n: 1/2, 1/4, ..., 2^-(n-1), 2^-(n-1), rotated by r *)
+NormRow(r, n) == [j \in 1..n |->
+                    LET p == ((j - 1 + r) % n) + 1 IN
+                    IF n = 1 THEN <<DOne, DZero>>
+                    ELSE IF p < n THEN <<<<1, p>>, DZero>> ELSE <<<<1, n - 1>>, DZero>>]
+OneHotRow(r, n) == [j \in 1..n |-> IF ((j - 1 + r) % n) = 0 THEN <<DOne, DZero>> ELSE <<DZero, DZero>>]
+ProbRow(r, n) == IF Scheme = 5 THEN OneHotRow(r, n) ELSE NormRow(r, n)
+Normalised == Scheme \in {4, 5}
 
-LayerStore(ls, i) ==
-  LET l == ls[i] IN
-  CASE l.kind = "emb"   -> [u \in 1..l.K |-> [j \in 1..Dom[l.var] |-> GenVal(i, u, j)]]
-    [] l.kind = "catp"  -> [u \in 1..l.K |-> RowDy(i, u, Dom[l.var])]
-    [] l.kind = "catl"  -> [u \in 1..l.K |-> [j \in 1..Dom[l.var] |-> PosVal(i, u, j)]]
-    [] l.kind = "poly"  -> [u \in 1..l.K |-> [j \in 1..(PolyDeg + 1) |-> GenVal(i, u, j)]]
-    [] l.kind = "const" -> [u \in 1..l.K |-> <<GenVal(i, u, 1)>>]
-    [] l.kind = "clog"  -> [u \in 1..l.K |-> <<PosVal(i, u, 1)>>]
-    [] l.kind = "sum"   -> [u \in 1..l.K |-> [j \in 1..(Len(l.ins) * ls[l.ins[1]].K) |-> GenVal(i, u, j)]]
-    [] l.kind = "mix"   -> [u \in 1..l.K |-> [j \in 1..Len(l.ins) |-> GenVal(i, u, j)]]
+(* the matrix of parameterised layer i in store version v (LINEAR domain) *)
+LayerStore(ls, i, v) ==
+  LET l == ls[i]
+      lv == i + 2 * (v - 1)
+      G(u, j) == GenVal(lv, u + (v - 1), j)
+  IN
+  CASE l.kind = "emb"   -> [u \in 1..l.K |-> IF Normalised THEN ProbRow(lv + u, Dom[l.var])
+                                             ELSE [j \in 1..Dom[l.var] |-> G(u, j)]]
+    [] l.kind = "catp"  -> [u \in 1..l.K |-> ProbRow(lv + u, Dom[l.var])]
+    [] l.kind = "catl"  -> [u \in 1..l.K |-> IF Normalised THEN NormRow(lv + u, Dom[l.var])
+                                             ELSE [j \in 1..Dom[l.var] |-> PosVal(lv, u, j)]]
+    [] l.kind = "poly"  -> [u \in 1..l.K |-> [j \in 1..(PolyDeg + 1) |-> G(u, j)]]
+    [] l.kind = "const" -> [u \in 1..l.K |-> <<G(u, 1)>>]
+    [] l.kind = "clog"  -> [u \in 1..l.K |-> <<PosVal(lv, u, 1)>>]
+    [] l.kind = "sum"   -> LET n == Len(l.ins) * ls[l.ins[1]].K IN
+                           [u \in 1..l.K |-> IF Normalised THEN ProbRow(lv + u, n)
+                                             ELSE [j \in 1..n |-> G(u, j)]]
+    [] l.kind = "mix"   -> [u \in 1..l.K |-> IF Normalised THEN ProbRow(lv + u, Len(l.ins))
+                                             ELSE [j \in 1..Len(l.ins) |-> G(u, j)]]
     [] OTHER -> <<>>
 
-Store == [i \in 1..NL |-> LayerStore(layers, i)]
-BaseTerm == [op |-> "base", c |-> [layers |-> layers, outs |-> outs], st |-> Store]
-Pool == <<BaseTerm>> \o ops
-NP == 1 + Len(ops)
+StoreAt(vf) == [i \in 1..NL |-> LayerStore(layers, i, vf[i])]
+NoTh == <<0, 0, 0>>
 
-HasOp(i, o) == Pool[i].op = o
+(* ---------- the pool ---------- *)
+NB == Len(bases)
+BaseTerm(b, vf, th) == [op |-> "base", c |-> [layers |-> layers, outs |-> bases[b]],
+                        st |-> StoreAt(vf), th |-> th]
+PoolAt(vf, th) == [b \in 1..NB |-> BaseTerm(b, vf, th)] \o ops
+Pool == PoolAt(ver, NoTh)
+NP == NB + Len(ops)
+
 RECURSIVE Mentions(_, _)      \* does term i contain operator o anywhere below it
 Mentions(i, o) ==
   LET t == Pool[i] IN
@@ -143,42 +190,183 @@ Mentions(i, o) ==
   \/ (t.op = "multiply" /\ (Mentions(t.a, o) \/ Mentions(t.b, o)))
   \/ (t.op = "concat" /\ \E n \in 1..Len(t.args) : Mentions(t.args[n], o))
 
-RECURSIVE TermKinds(_)        \* input-layer kinds a term still evaluates (approximation: base kinds)
-BaseKindsOn(Z) == {layers[i].kind : i \in {j \in 1..NL : layers[j].kind \in InputKinds /\ layers[j].var \in Z}}
-TermKinds(i) == {layers[j].kind : j \in {n \in 1..NL : layers[n].kind \in InputKinds}}
+RECURSIVE BasesOf(_)          \* the base circuits a term is built from
+BasesOf(i) ==
+  LET t == Pool[i] IN
+  CASE t.op = "base" -> {i}
+    [] t.op \in {"integrate", "evidence", "conjugate", "differentiate"} -> BasesOf(t.a)
+    [] t.op = "multiply" -> BasesOf(t.a) \cup BasesOf(t.b)
+    [] t.op = "concat" -> UNION {BasesOf(t.args[n]) : n \in 1..Len(t.args)}
+
+BaseReach(b) == Reach(layers, bases[b])
+InputKindsOf(i) == {layers[j].kind : j \in {n \in UNION {BaseReach(b) : b \in BasesOf(i)} :
+                                                layers[n].kind \in InputKinds}}
+InputKindsOn(i, Z) == {layers[j].kind : j \in {n \in UNION {BaseReach(b) : b \in BasesOf(i)} :
+                                                  layers[n].kind \in InputKinds /\ layers[n].var \in Z}}
+
+(* structure of a pool entry: base circuits by definition; results of operators are      *)
+(* smooth and decomposable by the operators' contract (checked on the code by C09)       *)
+SmoothDecomp(i) == Pool[i].op = "base" => (SmoothOn(layers, BaseReach(i)) /\ DecompOn(layers, BaseReach(i)))
 
 Subsets1(S) == (SUBSET S) \ {{}}
+IntegrableKinds == {"emb", "catp", "catl", "binom"}
+
+DiffEvaluable(t) ==
+  /\ SmoothDecomp(t.a) /\ t.k > 0
+  /\ InputKindsOf(t.a) \subseteq {"poly"}
+  /\ ~Mentions(t.a, "differentiate") /\ ~Mentions(t.a, "integrate")
+
+(* outcome class of an operator call, from the documented contract:                      *)
+(*   "ok"      must return                 "may"    returns or refuses                  *)
+(*   "struct"  must raise StructuralPropertyError                                        *)
+(*   "value"   must raise (invalid argument)      "raise"  must raise (any error)        *)
+PreOf(t) ==
+  CASE t.op = "integrate" ->
+         LET bad == (t.Z = {}) \/ ~(t.Z \subseteq TermScope(Pool, t.a)) IN
+         IF ~SmoothDecomp(t.a) THEN (IF bad THEN "raise" ELSE "struct")
+         ELSE IF bad THEN "value"
+         ELSE IF InputKindsOn(t.a, t.Z) \subseteq IntegrableKinds /\ ~Mentions(t.a, "differentiate")
+              THEN "ok" ELSE "may"
+    [] t.op = "differentiate" ->
+         IF ~SmoothDecomp(t.a) THEN (IF t.k <= 0 THEN "raise" ELSE "struct")
+         ELSE IF t.k <= 0 THEN "value"
+         ELSE IF DiffEvaluable(t) /\ ~Mentions(t.a, "evidence") THEN "ok" ELSE "may"
+    [] t.op = "multiply" ->
+         IF Pool[t.a].op = "base" /\ Pool[t.b].op = "base"
+            /\ TermScope(Pool, t.a) = TermScope(Pool, t.b)
+            /\ ~CompatOn(layers, BaseReach(t.a), BaseReach(t.b))
+         THEN "raise" ELSE "may"
+    [] t.op = "evidence" ->
+         IF DOMAIN t.obs = {} \/ ~(DOMAIN t.obs \subseteq TermScope(Pool, t.a)) THEN "value"
+         ELSE IF Mentions(t.a, "differentiate") THEN "may" ELSE "ok"
+    [] t.op = "conjugate" ->      \* constant / evidence layers need not have a conjugation rule
+         IF Mentions(t.a, "integrate") \/ Mentions(t.a, "evidence") THEN "may" ELSE "ok"
+    [] t.op = "concat" -> "may"
+
+(* is the denotation of the term computable by Sem (and meaningful)? *)
+Evaluable(t) ==
+  CASE t.op = "integrate" -> PreOf(t) = "ok"
+    [] t.op = "differentiate" -> DiffEvaluable(t)
+    [] t.op = "multiply" -> TermScope(Pool, t.a) = TermScope(Pool, t.b) /\ PreOf(t) = "may"
+    [] t.op = "evidence" -> PreOf(t) \in {"ok", "may"}
+    [] OTHER -> TRUE
+
+Candidates ==
+  UNION {
+    (IF "integrate" \in OpSet
+     THEN {[op |-> "integrate", a |-> a, Z |-> Z] :
+             Z \in (IF Invalid THEN SUBSET (1..V) ELSE Subsets1(TermScope(Pool, a)))}
+     ELSE {})
+    \cup
+    (IF "multiply" \in OpSet
+     THEN {[op |-> "multiply", a |-> a, b |-> b] : b \in 1..NP}
+     ELSE {})
+    \cup
+    (IF "evidence" \in OpSet
+     THEN UNION {{[op |-> "evidence", a |-> a, obs |-> obs] :
+                    obs \in {f \in [Z -> 0..2] : \A v \in Z : f[v] < Dom[v]}}
+                 : Z \in (IF Invalid THEN SUBSET (1..V) ELSE Subsets1(TermScope(Pool, a)))}
+     ELSE {})
+    \cup
+    (IF "conjugate" \in OpSet THEN {[op |-> "conjugate", a |-> a]} ELSE {})
+    \cup
+    (IF "concat" \in OpSet
+     THEN {[op |-> "concat", args |-> <<a, b>>] : b \in 1..NP}
+     ELSE {})
+    \cup
+    (IF "differentiate" \in OpSet
+     THEN {[op |-> "differentiate", a |-> a, k |-> k] : k \in DiffK}
+     ELSE {})
+    : a \in 1..NP}
+
+RECURSIVE OutK(_)             \* number of units of the outputs of a pool entry
+OutK(i) ==
+  LET t == Pool[i] IN
+  CASE t.op = "base" -> layers[bases[i][1]].K
+    [] t.op \in {"integrate", "evidence", "conjugate", "differentiate"} -> OutK(t.a)
+    [] t.op = "multiply" -> OutK(t.a) * OutK(t.b)
+    [] t.op = "concat" -> OutK(t.args[1])
+
+RECURSIVE Degree(_)           \* number of base-circuit factors multiplied together in a pool entry
+Degree(i) ==
+  LET t == Pool[i] IN
+  CASE t.op = "base" -> 1
+    [] t.op \in {"integrate", "evidence", "conjugate", "differentiate"} -> Degree(t.a)
+    [] t.op = "multiply" -> Degree(t.a) + Degree(t.b)
+    [] t.op = "concat" -> SetMax({Degree(t.args[n]) : n \in 1..Len(t.args)})
+
+Operands(t) == CASE t.op \in {"multiply"} -> {t.a, t.b}
+                 [] t.op = "concat" -> {t.args[n] : n \in 1..Len(t.args)}
+                 [] OTHER -> {t.a}
+Returned(i) == Pool[i].op = "base" \/ Evaluable(Pool[i])
 
 ApplyOp ==
   /\ phase = "ops"
   /\ Len(ops) < MaxOps
-  /\ \E a \in 1..NP :
-       \/ /\ "integrate" \in OpSet
-          /\ ~ Mentions(a, "differentiate")
-          /\ \E Z \in Subsets1(TermScope(Pool, a)) :
-               /\ BaseKindsOn(Z) \subseteq {"emb", "catp", "catl"}
-               /\ ops' = Append(ops, [op |-> "integrate", a |-> a, Z |-> Z])
-       \/ /\ "multiply" \in OpSet
-          /\ \E b \in 1..NP :
-               /\ TermScope(Pool, a) = TermScope(Pool, b)
-               /\ ops' = Append(ops, [op |-> "multiply", a |-> a, b |-> b])
-       \/ /\ "evidence" \in OpSet
-          /\ \E Z \in Subsets1(TermScope(Pool, a)) :
-             \E obs \in [Z -> 0..2] :
-               /\ \A v \in Z : obs[v] < Dom[v]
-               /\ ops' = Append(ops, [op |-> "evidence", a |-> a, obs |-> obs])
-       \/ /\ "conjugate" \in OpSet
-          /\ ops' = Append(ops, [op |-> "conjugate", a |-> a])
-       \/ /\ "concat" \in OpSet
-          /\ \E b \in 1..NP :
-               ops' = Append(ops, [op |-> "concat", args |-> <<a, b>>])
-       \/ /\ "differentiate" \in OpSet
-          /\ ~ Mentions(a, "differentiate")
-          /\ TermKinds(a) \subseteq {"poly"}
-          /\ \E k \in DiffK : ops' = Append(ops, [op |-> "differentiate", a |-> a, k |-> k])
-  /\ UNCHANGED <<layers, outs, phase>>
+  /\ \E t \in Candidates :
+       /\ \A i \in Operands(t) : Returned(i)           \* operands are circuits that exist
+       /\ (Invalid \/ Evaluable(t))
+       /\ (t.op = "multiply" => Degree(t.a) + Degree(t.b) <= MaxDeg)
+       /\ (t.op = "concat" => \A i \in Operands(t) : ~Mentions(i, "differentiate")
+                                                         /\ OutK(i) = OutK(t.args[1]))
+       /\ ops' = Append(ops, t)
+  /\ UNCHANGED <<layers, bases, phase, ver, saved, hist>>
 
-Next == AddInput \/ AddInner \/ Finish \/ ApplyOp
+(* ---------- run phase ---------- *)
+ParamLayers == {i \in 1..NL : layers[i].kind \notin ProdKinds}
+
+StartRun ==
+  /\ phase = "ops" /\ MaxHist > 0
+  /\ Len(ops) \in EmitOps
+  /\ phase' = "run"
+  /\ UNCHANGED <<layers, bases, ops, ver, saved, hist>>
+
+Step(a) == hist' = Append(hist, a)
+
+Update ==
+  /\ "update" \in RunActs
+  /\ \E i \in ParamLayers :
+       LET nv == (ver[i] % NVer) + 1 IN
+       /\ ver' = [ver EXCEPT ![i] = nv]
+       /\ Step([a |-> "update", i |-> i, v |-> nv])
+  /\ UNCHANGED saved
+Reset ==
+  /\ "reset" \in RunActs
+  /\ ver # [i \in 1..NL |-> 1]
+  /\ ver' = [i \in 1..NL |-> 1]
+  /\ Step([a |-> "reset"])
+  /\ UNCHANGED saved
+Save ==
+  /\ "save" \in RunActs
+  /\ saved # ver
+  /\ saved' = ver
+  /\ Step([a |-> "save"])
+  /\ UNCHANGED ver
+Load ==
+  /\ "load" \in RunActs
+  /\ saved # <<>> /\ saved # ver
+  /\ ver' = saved
+  /\ Step([a |-> "load"])
+  /\ UNCHANGED saved
+Reload ==          \* fresh context, fresh (random) values, then load_state_dict(saved)
+  /\ "reload" \in RunActs
+  /\ saved # <<>>
+  /\ ver' = saved
+  /\ Step([a |-> "reload"])
+  /\ UNCHANGED saved
+Eval ==
+  /\ "eval" \in RunActs
+  /\ (hist = <<>> \/ Last(hist).a # "eval")
+  /\ Step([a |-> "eval", ver |-> ver])
+  /\ UNCHANGED <<ver, saved>>
+
+Run ==
+  /\ phase = "run"
+  /\ Len(hist) < MaxHist
+  /\ (Update \/ Reset \/ Save \/ Load \/ Reload \/ Eval)
+  /\ UNCHANGED <<layers, bases, ops, phase>>
+
+Next == AddInput \/ AddInner \/ Finish \/ ApplyOp \/ StartRun \/ Run
 Spec == Init /\ [][Next]_vars
 
 (* ---------- expectations (Tier R) ---------- *)
@@ -190,25 +378,40 @@ AssignSeq == \* assignments in lexicographic order, variable 1 most significant
                       Append(prev[((q - 1) \div Dom[n]) + 1], (q - 1) % Dom[n])]
   IN F(V)
 
-ExpectOf(i) ==
+(* component c of the value of pool entry i (1 = value, 2 = d/dtheta) at every assignment *)
+TableOf(pool, i, c) ==
   LET as == AssignSeq IN
-  [scope |-> SetToSeq(TermScope(Pool, i)),
-   table |-> [q \in 1..Len(as) |->
-                LET d == DenTerm(Pool, Dom, i, as[q], XN(as[q]))
-                IN [o \in 1..Len(d) |-> [u \in 1..Len(d[o]) |-> d[o][u][1]]]]]
+  [q \in 1..Len(as) |->
+     LET d == DenTerm(pool, Dom, i, as[q], XN(as[q]))
+     IN [o \in 1..Len(d) |-> [u \in 1..Len(d[o]) |-> d[o][u][c]]]]
+
+ExpectOf(pool, i) ==
+  LET t == pool[i] IN
+  IF t.op # "base" /\ ~Evaluable(t)
+  THEN [pre |-> PreOf(t)]
+  ELSE LET sc == OutScopes(pool, i) IN
+       [pre |-> IF t.op = "base" THEN "ok" ELSE PreOf(t),
+        scope |-> SetToSeq(TermScope(pool, i)),
+        nouts |-> Len(sc),
+        table |-> TableOf(pool, i, 1)]
+
+StructOf(i) ==
+  LET t == Pool[i] IN
+  IF t.op = "base"
+  THEN [pre |-> "ok", scope |-> SetToSeq(TermScope(Pool, i)), nouts |-> Len(bases[i]),
+        smooth |-> SmoothOn(layers, BaseReach(i)), decomp |-> DecompOn(layers, BaseReach(i)),
+        sd |-> SDOn(layers, BaseReach(i))]
+  ELSE IF \A j \in Operands(t) : Returned(j)
+       THEN (IF PreOf(t) \in {"ok", "may"} /\ (t.op \notin {"multiply"} \/ TermScope(Pool, t.a) = TermScope(Pool, t.b))
+             THEN [pre |-> PreOf(t), scope |-> SetToSeq(TermScope(Pool, i)), nouts |-> Len(OutScopes(Pool, i))]
+             ELSE [pre |-> PreOf(t)])
+       ELSE [pre |-> "skip"]
 
 OpJson(t) ==
   CASE t.op = "integrate" -> [op |-> t.op, a |-> t.a, Z |-> SetToSeq(t.Z)]
     [] t.op = "evidence" -> [op |-> t.op, a |-> t.a, vars |-> SetToSeq(DOMAIN t.obs),
                              vals |-> [n \in 1..Cardinality(DOMAIN t.obs) |-> t.obs[SetToSeq(DOMAIN t.obs)[n]]]]
     [] OTHER -> t
-
-Behaviour ==
-  [dom |-> Dom, scheme |-> Scheme, polydeg |-> PolyDeg,
-   layers |-> layers, outs |-> outs,
-   store |-> Store,
-   ops |-> [n \in 1..Len(ops) |-> OpJson(ops[n])],
-   expect |-> [i \in 1..NP |-> ExpectOf(i)]]
 
 RECURSIVE SeqSum(_, _)
 SeqSum(s, n) == IF n = 0 THEN 0 ELSE s[n] * n + SeqSum(s, n - 1)
@@ -217,11 +420,87 @@ StructHash ==
       F(n) == IF n = 0 THEN 0
               ELSE (n * (KindHash(layers[n].kind) + 3 * layers[n].K + 7 * layers[n].var
                          + 11 * SeqSum(layers[n].ins, Len(layers[n].ins))) + F(n - 1)) % 100003
-  IN (F(NL) + 13 * SeqSum(outs, Len(outs)) + 17 * Len(ops)) % 100003
+      RECURSIVE B(_)
+      B(n) == IF n = 0 THEN 0 ELSE (13 * n * SeqSum(bases[n], Len(bases[n])) + B(n - 1)) % 100003
+      RECURSIVE H(_)
+      H(n) == IF n = 0 THEN 0
+              ELSE ((IF hist[n].a = "update" THEN 3 + hist[n].i
+                     ELSE IF hist[n].a = "eval" THEN 1 ELSE IF hist[n].a = "reset" THEN 2
+                     ELSE IF hist[n].a = "save" THEN 17 ELSE IF hist[n].a = "load" THEN 23 ELSE 29) * n
+                    + 31 * H(n - 1)) % 100003
+      SetCode(S) == LET RECURSIVE G(_) G(v) == IF v = 0 THEN 0 ELSE (IF v \in S THEN IPow(2, v - 1) ELSE 0) + G(v - 1)
+                    IN G(V)
+      OpCode(t) ==
+        CASE t.op = "integrate" -> 3 + 7 * t.a + 11 * SetCode(t.Z)
+          [] t.op = "multiply" -> 5 + 7 * t.a + 13 * t.b
+          [] t.op = "evidence" -> 17 + 7 * t.a + 11 * SetCode(DOMAIN t.obs)
+                                  + 29 * SeqSum([v \in 1..V |-> IF v \in DOMAIN t.obs THEN t.obs[v] + 1 ELSE 0], V)
+          [] t.op = "conjugate" -> 19 + 7 * t.a
+          [] t.op = "concat" -> 23 + 7 * t.args[1] + 13 * t.args[2]
+          [] t.op = "differentiate" -> 31 + 7 * t.a + 37 * t.k
+      RECURSIVE O(_)
+      O(n) == IF n = 0 THEN 0 ELSE (OpCode(ops[n]) * (n + 1) + 41 * O(n - 1)) % 100003
+  IN (F(NL) + B(NB) + 17 * Len(ops) + O(Len(ops)) + H(Len(hist))) % 100003
 
-Emitting == phase = "ops" /\ Len(ops) \in EmitOps /\ (StructHash % EmitMod) = (EmitRes % EmitMod)
+(* parameter entries whose exact partial derivatives are emitted *)
+ThetaSel ==
+  IF GradMod = 0 THEN {}
+  ELSE {th \in UNION {{<<i, u, j>> : u \in 1..Len(StoreAt(ver)[i]),
+                                      j \in 1..Len(StoreAt(ver)[i][1])} : i \in ParamLayers} :
+          ((7 * th[1] + 3 * th[2] + th[3] + StructHash) % GradMod) = 0}
+GradOf(th) ==
+  LET pool == PoolAt(ver, th) IN
+  [th |-> th, d |-> [i \in 1..NP |-> IF pool[i].op # "base" /\ ~Evaluable(pool[i]) THEN <<>>
+                                     ELSE TableOf(pool, i, 2)]]
+Grads == LET s == SetToSeqAny(ThetaSel) IN [n \in 1..Len(s) |-> GradOf(s[n])]
+
+(* marginals of base circuit 1 over every variable subset, indexed by bitmask (bit v-1 = variable v) *)
+MaskSet(m) == {v \in 1..V : (m \div IPow(2, v - 1)) % 2 = 1}
+QTables ==
+  IF ~QueryOn THEN <<>>
+  ELSE [m \in 1..(IPow(2, V) - 1) |->
+          IF MaskSet(m) \subseteq TermScope(Pool, 1)
+          THEN LET as == AssignSeq
+                   zs == SetToSeq(MaskSet(m)) IN
+               [q \in 1..Len(as) |->
+                  LET d == IntOver(Pool, Dom, 1, zs, as[q], XN(as[q]))
+                  IN [o \in 1..Len(d) |-> [u \in 1..Len(d[o]) |-> d[o][u][1]]]]
+          ELSE <<>>]
+
+HistJson ==
+  [n \in 1..Len(hist) |->
+     IF hist[n].a = "eval"
+     THEN [a |-> "eval", ver |-> hist[n].ver,
+           expect |-> LET pool == PoolAt(hist[n].ver, NoTh) IN
+                      [i \in 1..NP |-> IF pool[i].op # "base" /\ ~Evaluable(pool[i]) THEN <<>>
+                                       ELSE TableOf(pool, i, 1)]]
+     ELSE hist[n]]
+
+Behaviour ==
+  [dom |-> Dom, scheme |-> Scheme, polydeg |-> PolyDeg,
+   layers |-> layers, bases |-> bases,
+   stores |-> [v \in 1..NVer |-> StoreAt([i \in 1..NL |-> v])],
+   ops |-> [n \in 1..Len(ops) |-> OpJson(ops[n])],
+   expect |-> [i \in 1..NP |-> ExpectOf(Pool, i)],
+   hist |-> HistJson,
+   grads |-> Grads,
+   qtables |-> QTables]
+
+StructBehaviour ==
+  [dom |-> Dom, layers |-> layers, bases |-> bases,
+   ops |-> [n \in 1..Len(ops) |-> OpJson(ops[n])],
+   struct |-> [i \in 1..NP |-> StructOf(i)],
+   compat |-> IF NB = 2 THEN <<CompatOn(layers, BaseReach(1), BaseReach(2))>> ELSE <<>>]
+
+MixHash == (((StructHash * 7919 + 4273) % 100003) * 31 + StructHash) % 100003
+HashOK == NL <= EmitSmall \/ (MixHash % EmitMod) = (EmitRes % EmitMod)
+Emitting ==
+  /\ Len(ops) \in EmitOps
+  /\ HashOK
+  /\ IF MaxHist = 0 THEN phase = "ops"
+     ELSE phase = "run" /\ Len(hist) = MaxHist /\ Last(hist).a = "eval"
 EmitInv == Emitting => PrintT(<<"VP", ToJson(Behaviour)>>)
+EmitStructInv == Emitting => PrintT(<<"VP", ToJson(StructBehaviour)>>)
 
-(* magnitudes stay far from the 32-bit limit *)
-TypeOK == phase \in {"build", "ops"}
+TypeOK == phase \in {"build", "ops", "run"}
 ===============================================================================
